@@ -10,14 +10,127 @@ def F(rule_name, f, node, construct, message, **kw):
     return Finding(rule_name, f.module.relpath, f.short, construct, message, getattr(node, 'lineno', 0), **kw)
 
 
+def _effects(outcome):
+    """[(kind, head, text)] of an outcome string: kind in call/store/new/loop/exit; head = callee or store target"""
+    import re as _re
+    body = outcome.split(' || ')[0]
+    out = []
+    depth = 0
+    cur = ''
+    parts = []
+    for ch in body:                      # split at ' ; ' outside braces (nested loop tables contain ' ; ' too)
+        if ch in '{[(':
+            depth += 1
+        elif ch in '}])':
+            depth -= 1
+        cur += ch
+        if depth == 0 and cur.endswith(' ; '):
+            parts.append(cur[:-3])
+            cur = ''
+    if cur:
+        parts.append(cur)
+    for t in parts:
+        t = t.strip()
+        if t.startswith('call '):
+            m = _re.match(r'call (.+?)\(', t)
+            out.append(('call', m.group(1) if m else '?', t))
+        elif t.startswith('store '):
+            out.append(('store', t[6:].split(' = ')[0], t))
+        elif t.startswith('new '):
+            out.append(('new', t[4:].split(' = ')[0], t))
+        elif t.startswith('loop '):
+            out.append(('loop', 'loop', t))
+        else:
+            out.append(('exit', t.split(' ')[0], t))
+    return out
+
+
+def _visible(eff):
+    """effects that can be observed from outside the function: not the creation of, stores into or method calls on fresh
+    local objects (obj<k>)"""
+    import re as _re
+    out = []
+    for kind, head, t in eff:
+        if kind == 'new':
+            continue
+        root = _re.split(r'[.\[(]', head)[0]
+        if kind in ('call', 'store') and _re.fullmatch(r'obj\d+', root):
+            continue
+        out.append((kind, head, t))
+    return out
+
+
+def _judge(want, have):
+    """two outcomes of the same case differ: is that a positively identified change of behaviour?
+    -> ('bad', why) | ('undecided', why)"""
+    import re as _re
+    if 'loop ' in want or 'loop ' in have:
+        def strip_loops(t):
+            out, i = '', 0
+            while True:
+                j = t.find('loop ', i)
+                if j < 0:
+                    return out + t[i:]
+                out += t[i:j] + 'LOOP'
+                k = t.find('{', j)
+                if k < 0:
+                    return out
+                depth = 0
+                while k < len(t):
+                    if t[k] == '{':
+                        depth += 1
+                    elif t[k] == '}':
+                        depth -= 1
+                        if depth == 0:
+                            break
+                    k += 1
+                i = k + 1
+        w2, h2 = strip_loops(want), strip_loops(have)
+        if w2 == h2:
+            return 'undecided', 'the outcomes differ inside a nested loop whose body is compared as text'
+        want, have = w2, h2
+    we, he = _visible(_effects(want)), _visible(_effects(have))
+    wcallees = {h for k, h, _ in _effects(want) if k == 'call'} | set(_re.findall(r'(?<![\w.])([A-Za-z_][\w.]*)\(', want))
+    hcallees = {h for k, h, _ in _effects(have) if k == 'call'} | set(_re.findall(r'(?<![\w.])([A-Za-z_][\w.]*)\(', have))
+    new_callees = {c for c in hcallees - wcallees if not _re.fullmatch(r'(L|S|old\d+|__\d+|len|str|int|bool|max|min|isinstance|tuple|list|dict|set|sorted|reversed|enumerate|zip|range|super)', c)
+                   and not _re.match(r'obj\d+\.', c)}
+    if new_callees:
+        return 'undecided', 'goes through %s, which the reviewed behaviour does not use' % sorted(new_callees)
+    if ' || ' in want or ' || ' in have:
+        wt, ht = want.split(' || ')[1:] or [''], have.split(' || ')[1:] or ['']
+    else:
+        wt = ht = ['']
+    wsk, hsk = [(k, h) for k, h, _ in we], [(k, h) for k, h, _ in he]
+    if wsk != hsk:
+        missing = [x for x in wsk if x not in hsk]
+        extra = [x for x in hsk if x not in wsk]
+        if any(k in ('store', 'call') for k, _ in missing + extra) or (missing + extra and all(k == 'exit' for k, _ in missing + extra)):
+            return 'bad', 'the externally visible steps differ (not in the reviewed behaviour: %s; missing: %s)' % (extra or '-', missing or '-')
+        return 'undecided', 'different steps on local objects'
+    # same visible steps: operands
+    for (k, h, t1), (_, _, t2) in zip(we, he):
+        if t1 != t2:
+            if _re.search(r'obj\d+', t1 + t2) or 'loop ' in t1:
+                return 'undecided', 'same visible steps; an operand built from local objects is spelled differently (%s)' % t2[:120]
+            return 'bad', 'same steps, different operand: `%s` instead of `%s`' % (t2[:160], t1[:160])
+    if wt != ht:
+        if _re.search(r'obj\d+', ''.join(wt + ht)):
+            return 'undecided', 'loop-carried locals differ in a value built from local objects'
+        return 'bad', 'the values carried to the next iteration / after the loop differ: `%s` instead of `%s`' % (ht[0][:160], wt[0][:160])
+    return 'undecided', 'outcomes differ only in steps on local objects'
+
+
 def check_table(p, res, rname, fq, message, detectors=()):
     """-> 'ok' | 'bad' | 'undecided'.  `detectors`: callables (project, func) -> (node, construct, why) | None that positively
     identify a known wrong construct when the table can no longer be compared (tests outside the reviewed vocabulary)."""
     from .tables_spec import TABLES
     from .tables_list import TABLES as LIST
     kw = dict(LIST)[fq]
-    want = TABLES[fq]
+    want = TABLES.get(fq)
     f = p.func(fq)
+    if want is None:
+        res.undecided('%s: decision table' % fq, 'no reviewed table (the function has too many paths to tabulate): ' + message)
+        return 'undecided'
     try:
         have = dtable.table_rows(p, f, **kw)
     except sympath.Unsupported as e:
@@ -56,19 +169,16 @@ def check_table(p, res, rname, fq, message, detectors=()):
             res.undecided('%s [%s]: %s' % (fq, label, det), message)
             verdict = 'undecided' if verdict == 'ok' else verdict
         else:
-            import re as _re
             for wc, wo, hc, ho in det[:2]:
-                # effects through functions the reviewed behaviour does not mention (a new helper) cannot be compared
-                callees = lambda t: set(_re.findall(r'call ([\w.]+?)\(', t)) | set(_re.findall(r'(?<![\w.])([A-Za-z_][\w.]*)\(', t))
-                new_callees = {c for c in callees(ho) - callees(wo) if not c.startswith(('L', 'S', 'old', '__')) and c not in ('len', 'str', 'int', 'bool', 'max', 'min', 'isinstance')}
                 when = ' and '.join(('%s' if v else 'not (%s)') % k for k, v in sorted(hc.items())) or 'always'
-                if new_callees:
-                    res.undecided('%s [%s] when %s: %s' % (fq, label, when, ho[:300]), 'goes through %s, which the reviewed behaviour does not use: %s' % (sorted(new_callees), wo[:300]))
-                    verdict = 'undecided' if verdict == 'ok' else verdict
-                else:
+                kind, why = _judge(wo, ho)
+                if kind == 'bad':
                     res.bad(F(rname, f, f.node, '%s [%s] when %s: %s' % (f.name, label, when, ho),
-                              message + '; reviewed behaviour for this case: ' + wo))
+                              message + '; ' + why + '; reviewed behaviour for this case: ' + wo))
                     verdict = 'bad'
+                else:
+                    res.undecided('%s [%s] when %s: %s' % (fq, label, when, ho[:300]), why + ': ' + wo[:300])
+                    verdict = 'undecided' if verdict == 'ok' else verdict
     if verdict == 'ok':
         res.ok('%s: %d case(s) agree with the reviewed decision table' % (fq, n))
     return verdict
